@@ -15,9 +15,9 @@ CSS_ALPHA = {"a", "f", "t", "1", "0", "$", "#", "@", "-", "{", "}", "(", ")", "+
 STRUCT_M = {"a", "$", "#", "*", "@", "-", "_", "^", "{", "}", "[", "]", "(", ")", ">", ".", "=", "BS", "DQ", " ", "1"}
 # syntactic fragments for Fragments.tla (no upper-case letters: BS / DQ are the only names replaced inside a fragment)
 FRAG_M = {"x", "a1", "#i", ".c", ".b_e-m", "[t=v]", "[DQqDQ]", "['q']", "[t]", "[d.]", "[!m=]", "{t}", "{$#}", "*2", "*", ">", "+", "^", "(", ")", "/",
-          "$@^2", "$$@-", ":", "[t={e}]", "{BS}}", " "}
+          "$@^2", "$$@-", ":", "[t={e}]", "{BS}}", " ", "{${1:x", "[a=${b", "BS"}
 FRAG_C = {"p", "m", "10", "-", "1.5", "#f", "#fc0.5", "!", "+", "lg(", "rotate(", ")", ",", "px", "%", "$x", "${1:a}", ":", "@k", "'s'", "-a", "e", " ",
-          "DQ", "@", "0", "rgb(0,0,0)"}
+          "DQ", "@", "0", "rgb(0,0,0)", "${1", "${a{", "BS"}
 STRUCT_C = {"a", "1", "$", "#", "-", "{", "}", "(", ")", ".", "'", ":", ",", "!", "f", "t", "@", " "}
 
 
